@@ -213,7 +213,11 @@ def run_lite_op(w, o):
     else:
         w.ev("Start", op="protect", pw=o["pw"], rp=bool(o.get("rp")), pf=o.get("pf", 0))
         tag._ndef = None
-        call = lambda: tag.protect(w.password(o["pw"]), read_protect=bool(o.get("rp")), protect_from=o.get("pf", 0))
+        pf = o.get("pf", 0)
+        pwd = w.password(o["pw"])
+        if o["pw"] == "short" and w.rnd.random() < 0.5:
+            pwd, pf = w.keys["kA"], -1 - w.rnd.randrange(3)        # "protect_from can not be negative": ValueError as well
+        call = lambda: tag.protect(pwd, read_protect=bool(o.get("rp")), protect_from=pf)
     try:
         r = call()
         res = "True" if r is True else "False" if r is False else "Value:%s" % type(r).__name__
